@@ -3,6 +3,7 @@
 package mqtt
 
 import (
+	"context"
 	"errors"
 	"net"
 	"time"
@@ -279,6 +280,52 @@ func verifH_C12_closeduringhandshake() {
 	verifAssert(!ok, "C12: write token not closed")
 	_, ok = <-c.connSem
 	verifAssert(!ok, "C12: connSem not closed")
+	verifReach("closed")
+}
+
+// L12.b': Close / Disconnect while ReadSlices is inside the Dialer. The
+// Dialer ends only when its context does; PauseTimeout is set but far away, so
+// only the cancellation by Close/Disconnect can end the dial in time.
+func verifH_C12_closeduringdial() {
+	e := verifConnectState(0, 0, 0)
+	c := e.o.c
+	c.Config.PauseTimeout = time.Hour
+	entered := false
+	c.Config.Dialer = func(ctx context.Context) (net.Conn, error) {
+		entered = true
+		<-ctx.Done()
+		return nil, ctx.Err()
+	}
+	disconnect := verifChoose("disconnect", 2) == 1
+	readDone, closeDone := false, false
+	var rerr error
+	go func() {
+		_, _, rerr = c.ReadSlices()
+		readDone = true
+	}()
+	verifQuiesce()
+	verifAssert(entered, "harness: ReadSlices did not dial")
+	go func() {
+		if disconnect {
+			c.Disconnect(nil)
+		} else {
+			c.Close()
+		}
+		closeDone = true
+	}()
+	verifQuiesce()
+	verifAssert(closeDone, "C12: Close/Disconnect does not return while ReadSlices is dialing (its cancellation does not reach the Dialer)")
+	verifAssert(readDone, "C12: ReadSlices stays inside the Dialer after Close/Disconnect")
+	if !closeDone || !readDone {
+		return
+	}
+	for i := 0; i < 2 && !errors.Is(rerr, ErrClosed); i++ {
+		_, _, rerr = c.ReadSlices()
+	}
+	verifAssert(errors.Is(rerr, ErrClosed), "C12: ReadSlices does not report ErrClosed after Close during the dial")
+	verifQuiesce()
+	verifAssert(verifLiveGoroutines() == 0, "C12: a goroutine is left behind after Close during the dial")
+	verifAssert(verifIsReleased(c.Offline()) && !verifIsReleased(c.Online()), "C12: Offline not released / Online not blocked after Close")
 	verifReach("closed")
 }
 
